@@ -795,7 +795,7 @@ class Engine(osproxy.Sink):
         if i % 12 == 0:
             self.create_bias = rng.choice([0.85, 0.6, 0.3, 0.15])
         r = rng.random()
-        if (not self.alive) or (self.unborn and r < 0.08):
+        if (not self.alive) or (self.unborn and (r < 0.08 or i < 3)):
             if self.unborn:
                 return dict(op='appear', o=self.unborn[0])
         if r < 0.14 and len(self.alive) > 1:
@@ -818,7 +818,7 @@ class Engine(osproxy.Sink):
             op = dict(op='reset')
             if self.kind == 'vip' and ad.other and rng.random() < 0.5:
                 op['pool'] = 'other'
-        elif rng.random() < self.create_bias:
+        elif rng.random() < self.create_bias or (not held and rng.random() < 0.8):
             if self.kind == 'vip':
                 rr = rng.random()
                 if rr < 0.7:
